@@ -363,6 +363,29 @@ def u_grp_converter(h):
     h.ensure('dtype-int32', str(gi1.dtype) == 'int32' and str(gp1.dtype) == 'int32')
 
 
+def u_cox_sample_perm(h, tm, sv, efron, perm):
+    """Cox (Breslow / Efron) with tied event times: value and raw_grad are equivariant under a permutation of the samples"""
+    from checks.common import D
+    Dm = D()
+    n = len(tm)
+    Xw = h.vec('Xw', n)
+    w = h.vec('w', 1)
+    Xd = h.const(np.zeros((n, 1)))
+
+    def run(order):
+        y = h.const(np.column_stack([np.array([tm[i] for i in order], dtype=float), np.array([sv[i] for i in order], dtype=float)]))
+        z = h.arr([Xw[i] for i in order]) if h.mode == 'sym' else np.array([Xw[i] for i in order], dtype=float)
+        df = h.datafit(Dm.Cox, use_efron=efron)
+        df.initialize(Xd, y)
+        return df.value(y, w, z), df.raw_grad(y, z)
+    v0, g0 = run(list(range(n)))
+    v1, g1 = run(list(perm))
+    h.observe('value', v0)
+    h.ensure('value-invariant', h.eq(v0, v1))
+    for k, i in enumerate(perm):
+        h.ensure('raw_grad-equivariant[%d]' % k, h.eq(g1[k], g0[i]))
+
+
 def units(tier):
     us = []
     q = tier == 'quick'
@@ -396,6 +419,11 @@ def units(tier):
         us.append(Unit('C15/S/multitask-step-task-swap[j=%d]' % j, u_multitask_step_perm, dict(X='corr32', j=j), wall_s=150,
                        timeout_ms=8000))
     us.append(Unit('C15/K/grp_converter', u_grp_converter, {}, wall_s=30))
+    for tm, sv in (([0, 0, 1], [1, 1, 1]), ([1, 1, 0], [1, 0, 1]), ([0, 0, 0], [1, 1, 0])):
+        for efron in (False, True):
+            for perm in ((1, 0, 2), (2, 0, 1)):
+                us.append(Unit('C15/K/Cox-sample-permutation[tm=%s,s=%s,efron=%s,perm=%s]' % (tm, sv, efron, perm), u_cox_sample_perm,
+                               dict(tm=tm, sv=sv, efron=efron, perm=perm), wall_s=60))
     return us
 
 
